@@ -19,7 +19,8 @@ RULE = ("Four generators on the real manager over the in-memory network. (1) Hyp
         "modules) x allow-multiple x name (empty/shared/distinct) x protocol (CONNECT only / CONNECT_V2 / CONNECT_V2+CONNECT), with "
         "directed probes. (2) exhaustive pairs of consecutive connects over (11 id classes x multi x 3 names x 2 protocols)^2 = 17424 "
         "cases. (3) generated churn of >=110 dynamic connects with departures (wraps the dynamic-id counter) and a fill of all 100 "
-        "dynamic ids plus one. (4) the public entry points Client.connect and client_context with generated keyword arguments on "
+        "dynamic ids plus 1-3 requests against the full pool, then generated cycles in which the k-th most recently assigned holder "
+        "leaves and a new dynamic request must be accepted. (4) the public entry points Client.connect and client_context with generated keyword arguments on "
         "a real pyrtma.Client. Oracle: three-valued expectation from the statement (must refuse => connection closed, no ACK, "
         "incumbent undisturbed; must accept => one ACK carrying the id, for id 0 an id in 100..199 held by no live module, "
         "CLIENT_INFO at the monitors describes id/logger/unique/name/pid as requested, a directed probe reaches exactly the holders; "
@@ -143,10 +144,24 @@ def churn_ops(choices, fill):
             ops.append({"op": "disconnect", "c": v} if how == 0 else {"op": "close", "c": v, "how": "fin" if how == 1 else "rst", "gone": "silent"})
             ops.append({"op": "_drain"})
     if fill:
-        # fill every dynamic id, then one more: it may be refused, but nothing may break
-        for _ in range(101 - len(live) + 2):
+        # fill every dynamic id, then more requests than ids: they may be refused, but nothing may break
+        while len(live) < 100:
             ops += [{"op": "open"}, {"op": "connect", "c": nxt, "ver": "v2v1", "id": 0, "logger": 0, "daemon": 0, "multi": 0,
                                       "name": "", "pid": 1}, {"op": "_drain"}]
+            live.append(nxt)
+            nxt += 1
+        for _ in range(fill[0]):
+            ops += [{"op": "open"}, {"op": "connect", "c": nxt, "ver": "v2v1", "id": 0, "logger": 0, "daemon": 0, "multi": 0,
+                                      "name": "", "pid": 1}, {"op": "_drain"}]
+            nxt += 1
+        # a holder leaves while the pool is full: the next request for a dynamic id must be accepted
+        for pick, how in fill[1]:
+            v = live.pop(len(live) - 1 - pick % len(live))
+            ops.append({"op": "disconnect", "c": v} if how == 0 else {"op": "close", "c": v, "how": "fin" if how == 1 else "rst", "gone": "silent"})
+            ops.append({"op": "_drain"})
+            ops += [{"op": "open"}, {"op": "connect", "c": nxt, "ver": "v2v1", "id": 0, "logger": 0, "daemon": 0, "multi": 0,
+                                      "name": "", "pid": 1}, {"op": "_drain"}]
+            live.append(nxt)
             nxt += 1
     ops.append({"op": "_probe"})
     return ops
@@ -166,14 +181,33 @@ def shard_churn(seed, n):
         res.count("churn-connects", sum(1 for o in ops if o["op"] == "connect"))
         if fill:
             res.count("churn-fill-all-ids")
+            res.count("churn-reuse-with-full-pool", len(fill[1]))
 
+    fill = st.one_of(st.none(), st.tuples(st.integers(1, 3), st.lists(
+        st.tuples(st.sampled_from([0, 0, 1, 2, 3, 4, 50, 99]), st.integers(0, 2)), max_size=5)))
     strat = st.tuples(st.lists(st.integers(0, 11), min_size=130, max_size=260).map(
-        lambda l: [x if i % 3 else 0 for i, x in enumerate(l)]), st.booleans())
+        lambda l: [x if i % 3 else 0 for i, x in enumerate(l)]), fill)
     hyp_run(body, strat, seed, n, res)
     return res
 
 
 # ---- (4) public entry points --------------------------------------------------------------------
+class AnyOf:
+    """Expected value with several allowed outcomes."""
+
+    def __init__(self, allowed):
+        self.allowed = list(allowed)
+
+    def __eq__(self, other):
+        return other in self.allowed
+
+    def __ne__(self, other):
+        return other not in self.allowed
+
+    def __repr__(self):
+        return "one of %r" % (self.allowed,)
+
+
 def entry_case(kw, res: Result = None):
     """kw: dict(entry, module_id, name, logger, daemon, multi, timecode)."""
     import logging
@@ -233,6 +267,12 @@ def entry_case(kw, res: Result = None):
         frames = P.parse_stream(wire, kw["timecode"])
         want = dict(logger=int(bool(kw["logger"])), daemon=int(bool(kw["daemon"])) if kw["entry"] == "connect" else 0,
                     multi=int(bool(kw["multi"])), mod_id=kw["module_id"], name=kw["name"].encode())
+        if not kw["name"] and kw["module_id"]:
+            # no name given: the client may fill in the name of the MID_ constant with this value (either is accepted)
+            from pyrtma.context import get_context
+
+            auto = [k.encode() for k, v in get_context().MID.items() if v == kw["module_id"]]
+            want["name"] = AnyOf([b""] + auto)
         v2 = [f for f in frames if f.msg_type == P.MT_CONNECT_V2]
         v1 = [f for f in frames if f.msg_type == P.MT_CONNECT]
         if not v2 and not v1:
@@ -349,7 +389,7 @@ def shard_entry(seed, n):
     res = Result()
     tri = st.sampled_from([None, False, True])
     strat = st.fixed_dictionaries(dict(entry=st.sampled_from(["connect", "client_context"]),
-                                       module_id=st.sampled_from([0, 0, 10, 11, 50, 99, 1]),
+                                       module_id=st.sampled_from([0, 0, 10, 11, 50, 99, 1, 4, 5]),  # 4 and 5 are MID_ constants of the core definitions
                                        name=st.sampled_from(["", "alpha", "a_long_module_name_of_31_chars_"]),
                                        logger=tri, daemon=tri, multi=tri, timecode=st.booleans(),
                                        reconnect=st.one_of(st.none(), st.tuples(st.booleans(), st.booleans(), st.booleans())),
